@@ -12,7 +12,7 @@ SPEC = dict(
                "printed count). A fifth of the homes start with a full history file (100 entries, in two of three cases with timestamps from a clock "
                "that ran ahead or out of order); a few runs print an answer of 200 KB into a pipe whose reader closes it a few KiB into the result block - "
                "the history must hold the entry all the same. A second engine runs every sub-command (help, history, pipeline, wizard with closed and scripted stdin, alias, setup, "
-               "save, save-pipeline) with generated arguments and requires a normal exit (0 or usage error 1), no panic, no signal, no hang.",
+               "save, save-pipeline) with generated arguments and requires a normal exit (0 or usage error 1), no panic, no signal, no hang. One home in seven searches a database that lists some command lines two or three times under the same description (other category / platforms); there the count and the printed names decide.",
     level_note="The replica of the search command's engine call (options, recovery search truncated to the limit) is an assumption of the rank-order clause; "
                "the limit, JSON, colour, crash and history clauses do not depend on it.",
     engines=[dict(name="cli-search", shards=T(16, 16), timeout=T(1500, 7200), needs_wtf=True),
